@@ -185,6 +185,7 @@ def run_child(plan, workdir, keeplog=False, timeout=90, gomaxprocs="1"):
     inc = 0
     state = None
     total_stats = {}
+    hang_retries = 0
     while True:
         pf = os.path.join(workdir, "plan%d.json" % inc)
         of = os.path.join(workdir, "out%d.json" % inc)
@@ -225,7 +226,16 @@ def run_child(plan, workdir, keeplog=False, timeout=90, gomaxprocs="1"):
             status = "panic" if ("panic:" in txt or "fatal error:" in txt or "[PANIC]" in txt or "goroutine " in txt) else "noresult"
             if any(m in txt for m in RESOURCE_MARKS) and "milvus-cdc" not in txt.split("goroutine ")[0]:
                 status = "noresult"
+            if status == "panic" and "panic: fail to get all task info" in txt and "MetaCDC).ReloadTask" in txt:
+                # the service refuses to start when it cannot list its tasks at start-up (the scheduler let the store's
+                # answer to that very first read take longer than the client's deadline): a start-up precondition of the
+                # scenarios, not a replication failure; the run is left out
+                status = "startup_abort"
             return {"status": status, "rc": rc, "output": txt[-12000:], "plan": plan, "stats": {}, "probes": {}}
+        if res.get("status") == "hang" and "phase=init" in str(res.get("harness")) and hang_retries < 2:
+            # no progress before the scenario even started (process start-up under a heavy machine load): run it again
+            hang_retries += 1
+            continue
         res["rc"] = rc
         res["child_output"] = (out + err)
         if res.get("status") == "crash_continue":
@@ -294,7 +304,7 @@ def worker_token():
     return None
 
 
-def parallel_map(fn, items, jobs):
+def parallel_map(fn, items, jobs, deadline=None):
     """Runs fn over items on up to `jobs` threads. The calling thread always works; each extra thread needs a machine-wide
     token (worker_token) and more are started whenever an item finishes and a token is free. Survives a machine that refuses
     new threads (fewer workers, in the end only the calling thread)."""
@@ -330,6 +340,8 @@ def parallel_map(fn, items, jobs):
                     i, it = q.get_nowait()
                 except queue.Empty:
                     return
+                if deadline is not None and time.time() > deadline:
+                    continue  # wall-clock budget used up: the remaining items are not started (out[i] stays None)
                 try:
                     out[i] = fn(it)
                 except Exception as e:  # noqa
@@ -407,7 +419,7 @@ class Runner:
         return res
 
     def run_all(self, deadline=None):
-        return parallel_map(self.one, list(self.plans()), self.jobs)
+        return parallel_map(self.one, list(self.plans()), self.jobs, deadline)
 
 
 def relevant_violations(res, prop):
@@ -600,9 +612,18 @@ def cmd_check(prop, tier, seed, runs_override=None):
     cfg = PROPS[prop]
     runs = runs_override or cfg["runs"][tier]
     runner = Runner(prop, tier, seed, runs, effective_jobs())
-    results = runner.run_all()
+    # wall-clock budget of the exploration phase (the quick tier is meant to end within minutes also on a machine that
+    # is busy with other checks): runs that were not started when it is used up are left out and the evidence says so
+    budget_s = float(os.environ.get("VERIF_BUDGET_S", "0") or 0) or (420.0 if tier == "quick" else 0.0)
+    log("%s %s: build %.1fs, %d runs planned%s" % (prop, tier, bt, runs, (", exploration budget %.0fs" % budget_s) if budget_s else ""))
+    results = runner.run_all(deadline=(time.time() + budget_s) if budget_s else None)
+    planned = len(results)
+    results = [r for r in results if r is not None]
     known = load_known()
     notes = []
+    if len(results) < planned:
+        notes.append("wall-clock budget of %.0fs reached: %d of %d planned runs were executed" % (budget_s, len(results), planned))
+        log("NOTE: wall-clock budget of %.0fs reached: %d of %d planned runs were executed" % (budget_s, len(results), planned))
     # harness trouble first
     bad = [r for r in results if r.get("status") in ("harness_error", "noresult", "timeout", "hang")]
     panics = [r for r in results if r.get("status") == "panic"]
